@@ -1,0 +1,33 @@
+//go:build verif
+
+// Contracts checked by /verif/govc (comment-only; compiled only with -tags verif).
+// Soundness mode (see frontend/contracts_verif.go).
+package uints
+
+// frames of the helpers (the circuit builder and the range checker behind the interfaces are the only
+// objects they write)
+//@ contract (*BinaryField).ToValue
+//@   trusted "frame only; the body ranges over an array-typed type parameter, outside the verifier's subset"
+//@   assigns *bf.api
+//@ contract (*BinaryField).ValueOf
+//@   trusted "frame only; the body ranges over an array-typed type parameter, outside the verifier's subset"
+//@   assigns *bf.api, *bf.rchecker
+//@ contract (*BinaryField).ByteValueOf
+//@   props C14
+//@   assigns *bf.rchecker
+//@   ensures @byte fits(ival(den(a)), 8) && result.Val == a
+
+// Add: the word returned is the low part of the native sum -- the sum minus the returned low part must be a
+// multiple of 2^w with a bounded quotient (the dropped carry), and the low part must be below 2^w. These are
+// exactly the facts bitslice.Partition asserts unless it is told to leave its outputs unconstrained.
+//@ contract (*BinaryField).Add
+//@   props C14
+//@   requires bf != nil && bf.api != nil && bf.rchecker != nil && len(a) >= 2
+//@   ensures @low-part maxBitlen < fieldBits() ==> fits(ival(den(vreslow)), tLen)
+//@   ensures @carry-dropped maxBitlen < fieldBits() ==> multPow2(ival(den(vres)) - ival(den(vreslow)), tLen)
+
+// U32 | U64 are arrays of 4 | 8 bytes
+//@ contract (*BinaryField).lenBts
+//@   trusted "len of the array type parameter (U32: 4, U64: 8)"
+//@   pure
+//@   ensures result == 4 || result == 8
